@@ -159,6 +159,8 @@ func main() {
 			fmt.Fprintln(os.Stderr, "harness:", err)
 			os.Exit(2)
 		}
+	case "stress":
+		stressMain(os.Args[2:])
 	case "replay":
 		fs := flag.NewFlagSet("replay", flag.ExitOnError)
 		file := fs.String("file", "", "replay file")
